@@ -564,7 +564,14 @@ Definition effective (chain : list (list hdecl)) : list hdecl :=
     [cls.remove(sub)] calls executed once the classes exist.  [lstate] holds the LAYERS
     dictionary of every class that has one OF ITS OWN (alias -> class id, insertion order);
     a class without one sees the dictionary of the nearest base class that has one. *)
-Inductive cdef := CDf (d_alias : N) (d_ctx : bool) (d_own : list hdecl) (d_base : option N).
+Inductive cdef :=
+  CDf (d_alias : N) (d_ctx : bool) (d_own : list hdecl)
+      (d_pre : list (list hdecl))      (* plain mixin classes listed BEFORE the layer base class *)
+      (d_base : option N)              (* the layer class it derives from (None: Layer / ContextualLayer) *)
+      (d_post : list (list hdecl)).    (* plain mixin classes listed AFTER the layer base class *)
+(** A mixin is a plain class (no alias, no LAYERS, no base but [object], used by one class only),
+    given by its method dictionary.  For these shapes the C3 linearisation is the concatenation
+    [cls :: pre-mixins ++ MRO(layer base) ++ post-mixins]. *)
 Inductive sstmt := SAdd (c sub : N) | SRemove (c sub : N).
 
 Fixpoint adel {K V : Type} (eqb : K -> K -> bool) (d : list (K * V)) (k : K) : list (K * V) :=
@@ -582,14 +589,14 @@ Fixpoint layers_of (fuel : nat) (p : list (N * cdef)) (ls : list (N * list (N * 
     match aget N.eqb ls c with
     | Some d => Some d
     | None => match aget N.eqb p c with
-              | Some (CDf _ _ _ (Some b)) => layers_of f p ls b
+              | Some (CDf _ _ _ _ (Some b) _) => layers_of f p ls b
               | _ => None
               end
     end
   end.
 
 Definition alias_of (p : list (N * cdef)) (c : N) : N :=
-  match aget N.eqb p c with Some (CDf a _ _ _) => a | None => 0 end.
+  match aget N.eqb p c with Some (CDf a _ _ _ _ _) => a | None => 0 end.
 
 (** [add] / [remove] as repaired: the dictionary edited is the class's own one; when the class
     has none yet it starts from a copy of the inherited one *)
@@ -612,14 +619,15 @@ Definition setup_step (p : list (N * cdef)) (ls : list (N * list (N * N))) (st :
 Definition run_setup (p : list (N * cdef)) (ls0 : list (N * list (N * N))) (prog : list sstmt) :=
   fold_left (setup_step p) prog ls0.
 
-(** method dictionaries along the MRO of class [id] (single inheritance) *)
+(** method dictionaries along the MRO of class [id] *)
 Fixpoint chain_of (fuel : nat) (p : list (N * cdef)) (id : N) : list (list hdecl) :=
   match fuel with
   | O => []
   | S f =>
     match aget N.eqb p id with
     | None => []
-    | Some (CDf _ _ own b) => own :: match b with Some j => chain_of f p j | None => [] end
+    | Some (CDf _ _ own pre b post) =>
+        own :: pre ++ match b with Some j => chain_of f p j | None => [] end ++ post
     end
   end.
 Fixpoint mro_ids (fuel : nat) (p : list (N * cdef)) (id : N) : list N :=
@@ -628,15 +636,30 @@ Fixpoint mro_ids (fuel : nat) (p : list (N * cdef)) (id : N) : list N :=
   | S f =>
     match aget N.eqb p id with
     | None => [id]
-    | Some (CDf _ _ _ b) => id :: match b with Some j => mro_ids f p j | None => [] end
+    | Some (CDf _ _ _ _ b _) => id :: match b with Some j => mro_ids f p j | None => [] end
     end
   end.
+
+(** [instcount_owner]: [[c for c in cls.__mro__ if getattr(c, 'alias', None) == cls.alias][-1]]
+    (mixins carry no alias, so only the layer classes of the MRO count) *)
+Definition owner_in (p : list (N * cdef)) (a : N) (l : list N) (dflt : N) : N :=
+  last (filter (fun i => N.eqb (alias_of p i) a) l) dflt.
+Definition owner_of (p : list (N * cdef)) (c : N) : N :=
+  owner_in p (alias_of p c) (mro_ids (S (length p)) p c) c.
+Definition is_ctx (p : list (N * cdef)) (c : N) : bool :=
+  match aget N.eqb p c with Some (CDf _ x _ _ _ _) => x | None => false end.
+(** the model numbers instances per alias; the code per counter owner: the same thing when the
+    contextual classes that share an alias share their owner (checked on every case) *)
+Definition counter_ok (p : list (N * cdef)) : bool :=
+  let ctxs := filter (is_ctx p) (map fst p) in
+  forallb (fun c1 => forallb (fun c2 =>
+     negb (N.eqb (alias_of p c1) (alias_of p c2)) || N.eqb (owner_of p c1) (owner_of p c2)) ctxs) ctxs.
 
 (** the class tree a stack of root class [c] is built from ([depth] bounds the nesting) *)
 Fixpoint elabc (depth : nat) (p : list (N * cdef)) (ls : list (N * list (N * N))) (c : N) : cls :=
   match aget N.eqb p c with
   | None => Cls 0 false [] []
-  | Some (CDf a x _ _) =>
+  | Some (CDf a x _ _ _ _) =>
       Cls a x (effective (chain_of (S (length p)) p c))
           match depth with
           | O => []
@@ -715,7 +738,8 @@ Definition pcase_tree (c : pcase) : cls :=
   let '(p, ls0, prog, rt, ops, obs, l0, hy) := c in elabc 8 p (run_setup p ls0 prog) rt.
 Definition pcase_elab (c : pcase) :=
   let '(p, ls0, prog, rt, ops, obs, l0, hy) := c in (pcase_tree c, ops, obs, l0, hy).
-Definition check_pcase (c : pcase) : bool := check_case (pcase_elab c).
+Definition check_pcase (c : pcase) : bool :=
+  check_case (pcase_elab c) && (let '(p, _, _, _, _, _, _, _) := c in counter_ok p).
 Definition inside_model_p (c : pcase) : bool := inside_model (pcase_elab c).
 
 (** the same against the reference (cross-check of the reference itself) *)
